@@ -29,13 +29,26 @@ RULE = ("per IBM module: heterogeneous sets of 2..8 particles, a random permutat
         "tracker, pids non-contiguous and large (up to 2^33), empty states in the middle of a history under "
         "warnings-as-errors. Memory look-up: each particle's reposition decision and new position in the set vs alone "
         "(state and memory reduced to the particle), mine with settled particles. saithe directed swimming (eggs / "
-        "non-directed / directed larvae staying, leaving the grid, meeting land). Non-trivial: set with >=2 distinct particles.")
+        "non-directed / directed larvae staying, leaving the grid, meeting land). Histories for the modules that are NOT "
+        "supposed to remember anything (egg, salmon_lice, larvae, saithe with/without extra_spreading, sandeel, lunar_eel, "
+        "shrimp, vps; cases of the modules' own generators, ~70% in the heterogeneous environment): 3..6 updates of ONE "
+        "IBM object on a pool of 2..6 particles with non-contiguous pids, each released at step 0 or later (~50%) and "
+        "removed early (~50%) or when the module marks it dead; survivors keep their order and releases are appended "
+        "(LADiM's order) or the arrays are re-ordered before every update; the tracker moves active particles; the time "
+        "stamp advances by dt; ~60% of the particles are released with lazily initialised variables at 0 (shrimp "
+        "depth_quantile / stage, sandeel hatch_rate, saithe direction); empty states inside the history under "
+        "warnings-as-errors; every state variable of every particle compared bit for bit: community vs alone with the same "
+        "updates vs alone with an IBM object created at the particle's release. "
+        "Non-trivial: set with >=2 distinct particles.")
 ASSUMPTIONS = ["'identical random draws' is realised by serving one constant per draw kind to all particles of the "
                "paired runs; in the particle-attached variant (permutation only) a draw whose size is the whole set is "
                "served per particle and smaller (masked) draws stay constant",
                "environment values are attached to the particle (function of its position or identity)",
                "between the updates of a history the tracker moves only suspended particles (active != 0) and removes "
-               "the particles the module marked dead"]
+               "the particles the module marked dead",
+               "a particle 'alone' is a history in which nobody else is ever present: the same updates with empty states "
+               "while the particle is absent, or an IBM object that is created when the particle is released (both are "
+               "histories inside the quantifier; time step number and time stamp are those of the community run)"]
 
 
 def const_inj(rng):
@@ -550,6 +563,199 @@ def full_histories(ctx, modname):
                    sum(1 for p in pids if script[p]["birth"] > 0 or script[p]["death"] < steps))
 
 
+# ------------------------------------------------------------------ histories for EVERY module (one IBM object, many updates)
+# state variable -> case key (None: the variable starts at 0, which is what LADiM's State.append gives a variable the
+# release file does not carry).  `alive` / `active` are carried along for every module.
+MH_VARS = {
+    "egg": dict(X="x", Y="y", Z="z", age="age", egg_buoy="buoy", temp=None, salt=None),
+    "salmon_lice": dict(X="x", Y="y", Z="z", age="age", days="days", super="super", temp=None, salt=None),
+    "larvae": dict(X="x", Y="y", Z="z", age="age", weight="weight", egg_buoy="buoy", temp=None, salt=None, direction=None),
+    "saithe": dict(X="x", Y="y", Z="z", age="age", weight="weight", egg_buoy="buoy", temp=None, salt=None,
+                   direction="direction"),
+    "sandeel": dict(X="x", Y="y", Z="z", stage="stage", hatch_rate="hatch"),
+    "lunar_eel": dict(X="x", Y="y", Z="z"),
+    "shrimp": dict(X="x", Y="y", Z="z", stage="stage", depth_quantile="q", age="age", temp=None, salt=None, length=None),
+    "vps": dict(X="x", Y="y", Z="z", age="age"),
+}
+# variables a module initialises lazily ("0 = not yet initialised, draw / set it in this update"): a freshly released
+# particle carries 0 there
+MH_LAZY = {"shrimp": ("q", "stage"), "sandeel": ("hatch",), "saithe": ("direction",)}
+
+
+def mh_case(ctx, name):
+    """a pool of 2..6 heterogeneous particles of module `name` (the module's own case generator), mostly in a
+    horizontally heterogeneous environment, freshly released particles with their lazily initialised variables at 0"""
+    rng = ctx.rng
+    gen = ibmrun.MODULES[name][0]
+    n = rng.randrange(2, 7)
+    case = gen(rng, n=n)
+    if rng.random() < 0.7:
+        case = hetero(ctx, name, case)
+    lazy = [k for k in MH_LAZY.get(name, ()) if k in case and not (k == "direction" and not case.get("spread"))]
+    fresh = 0
+    for i in range(n):
+        if lazy and rng.random() < 0.6:
+            for k in lazy:
+                if rng.random() < 0.8:
+                    case[k][i] = 0.0
+            fresh += 1
+    return case, n, fresh
+
+
+def mh_script(rng, steps, n):
+    """per particle: label (pid), step of release, step of removal by the tracker, per-step tracker move or None"""
+    base = rng.choice([0, 0, 1000, 2 ** 33])
+    labels = rng.sample(range(base, base + 40), n)
+    sc = []
+    for i in range(n):
+        birth = rng.randrange(1, max(2, steps)) if rng.random() < 0.5 else 0
+        death = rng.randrange(birth + 1, steps + 1) if rng.random() < 0.5 else steps + 1
+        moves = [None if rng.random() < 0.35 else (rng.uniform(-0.4, 0.4), rng.uniform(-0.4, 0.4)) for _ in range(steps)]
+        sc.append(dict(pid=labels[i], birth=birth, death=death, moves=moves))
+    return sc
+
+
+def mh_run(name, case, script, members, steps, seed, inj, mode, shuffle_rng=None, fresh_ibm_at=None):
+    """the particles `members` (indices into the pool `case`) living through `steps` updates of ONE IBM object of module
+    `name`.  Between the updates the tracker removes the particles whose time has come and those the module marked
+    dead, releases the new ones (appended behind the survivors, as LADiM does), re-orders the arrays when `mode` is
+    'reorder' (the particles carry their values along), and moves the mobile particles.  The environment is a function of
+    the particle's own position / identity, the time stamp advances by the time step.  `fresh_ibm_at`: the updates
+    before that step are skipped altogether (the IBM object is created at that step).
+    Returns ({i: [every state variable of particle i after each update it lived]}, [(step, message)] for the empty
+    states that raised or warned, number of releases behind a removal / re-ordering)"""
+    runner = ibmrun.MODULES[name][1]
+    vmap = dict(MH_VARS[name])
+    if name == "saithe" and not case.get("spread"):
+        vmap["direction"] = None                            # not read without `extra_spreading`
+    names = list(vmap) + ["active", "alive"]
+    sdt = case.get("sdt", case.get("state_dt", case["dt"]))
+    ts0 = case.get("ts", ibmrun.TS if name == "lunar_eel" else None)
+    ibm = None
+    cur = {}
+    prev_order = []
+    traj = {i: [] for i in members}
+    empties = []
+    mixed = 0
+    for t in range(steps):
+        gone = [i for i in list(cur) if script[i]["death"] <= t or not cur[i]["alive"]]
+        for i in gone:
+            del cur[i]
+        born = [i for i in members if script[i]["birth"] == t]
+        for i in born:
+            d = {k: (0.0 if ck is None else case[ck][i]) for k, ck in vmap.items()}
+            d["alive"] = True
+            d["active"] = bool(case["active"][i]) if isinstance(case.get("active"), np.ndarray) else True
+            cur[i] = d
+        order = [i for i in prev_order if i in cur] + born
+        if mode == "reorder" and shuffle_rng is not None:
+            shuffle_rng.shuffle(order)
+        if born and prev_order and order[:len(prev_order)] != prev_order:
+            mixed += 1
+        prev_order = list(order)
+        if t > 0:
+            for i in order:
+                mv = script[i]["moves"][t]
+                if mv is not None and script[i]["birth"] < t and cur[i]["active"]:
+                    cur[i]["X"] = float(cur[i]["X"]) + mv[0]; cur[i]["Y"] = float(cur[i]["Y"]) + mv[1]
+        if fresh_ibm_at is not None and t < fresh_ibm_at:
+            continue
+        idx = np.array(order, dtype=int)
+        sub = reindex(case, idx)
+        ts = None if ts0 is None else ts0 + np.timedelta64(int(round(case["dt"] * t)), "s")
+        if ts is not None:
+            sub["ts"] = ts
+        n = len(order)
+        if n == 0:
+            # the runner builds the (empty) state itself
+            with warnings.catch_warnings():
+                warnings.simplefilter("error")
+                try:
+                    with np.errstate(all="warn"):
+                        res = runner(sub, seed + t, None, inj, ibm=ibm)
+                    ibm = res["ibm"]
+                except Exception as e:       # noqa
+                    empties.append((t, repr(e)))
+                    return traj, empties, mixed, names
+            continue
+        arrays = {k: np.array([cur[i][k] for i in order], dtype=bool if k == "active" else float) for k in names if k != "alive"}
+        kw = {} if ts is None else dict(timestamp=ts)
+        st = real_state(dt=sdt, timestep=t, **kw, **arrays)
+        st["pid"] = np.array([script[i]["pid"] for i in order], dtype=np.int64)
+        res = runner(sub, seed + t, None, inj, ibm=ibm, state=st)
+        ibm = res["ibm"]
+        for j, i in enumerate(order):
+            for k in names:
+                v = st[k][j]
+                cur[i][k] = bool(v) if k in ("alive", "active") else float(v)
+            traj[i].append(tuple(cur[i][k] for k in names))
+    return traj, empties, mixed, names
+
+
+def module_histories(ctx, name):
+    """every state variable of every particle over a history of 3..6 updates of one IBM object: in the community
+    (releases, removals, re-orderings between the updates) and alone - once with the IBM object living through the
+    same updates (empty states while the particle is not there) and once with an IBM object created when the particle
+    is released.  The module keeps nothing that should survive an update except what it remembers BY IDENTITY, so the
+    three must agree bit for bit (identical draws: one constant per kind; environment attached to the particle)."""
+    import random
+    site = "ladim_plugins/%s/ibm.py" % name
+    for h in range(ctx.n(14, 150)):
+        steps = ctx.rng.randrange(3, 7)
+        case, n, fresh = mh_case(ctx, name)
+        script = mh_script(ctx.rng, steps, n)
+        mode = ctx.rng.choice(["reorder", "release_order"])
+        inj = const_inj(ctx.rng)
+        seed = ctx.sub_seed()
+        members = list(range(n))
+        summ = dict(module=name, case=ibmrun.case_summary(case), script=script, steps=steps, mode=mode)
+        ctx.case(key=(name, "module_history", repr(summ)), nontrivial=True)
+        ctx.branch("%s.module_history" % name)
+        ctx.branch("%s.module_history.%s" % (name, mode))
+        ctx.size("%s.module_history" % name, n)
+        out = mh_run(name, case, script, members, steps, seed, inj, mode, random.Random(seed))
+        comm, emp = out[0], out[1]
+        for t, msg in emp:
+            ctx.oracle(False, "C10.%s.empty_set" % name, site,
+                       "empty particle set at update %d of a history (same IBM object): %s" % (t, msg), summ)
+        if emp:
+            continue
+        names = out[3]
+        ctx.branch("%s.module_history.release_behind_removal_or_reordering" % name, out[2])
+        ctx.branch("%s.module_history.released_uninitialised" % name, fresh)
+        il = names.index("alive")
+        ctx.branch("%s.module_history.killed_by_module" % name, sum(1 for tr in comm.values() if tr and not tr[-1][il]))
+        ctx.branch("%s.module_history.empty_state_inside" % name,
+                   int(any(all(not (s["birth"] <= t < s["death"]) for s in script) for t in range(steps))))
+        for i in members:
+            for variant, fresh_at in (("alone (same updates, empty states while it is absent)", None),
+                                      ("alone, IBM object created at its release", script[i]["birth"])):
+                o1 = mh_run(name, case, script, [i], steps, seed, inj, "release_order", None, fresh_at)
+                for t, msg in o1[1]:
+                    ctx.oracle(False, "C10.%s.empty_set" % name, site,
+                               "empty particle set at update %d of a history (same IBM object): %s" % (t, msg),
+                               dict(summ, particle=i))
+                if o1[1]:
+                    continue
+                a, b = o1[0][i], comm[i]
+                ok = len(a) == len(b)
+                what = "number of updates lived %d vs %d" % (len(b), len(a))
+                if ok:
+                    for t_, (sa, sb) in enumerate(zip(a, b)):
+                        for k, va, vb_ in zip(names, sa, sb):
+                            same = (va == vb_) if isinstance(va, bool) else same_bits(va, vb_)
+                            if not same:
+                                ok = False
+                                what = "%s after its update no. %d: %r in the community, %r %s" % (k, t_, vb_, va, variant)
+                                break
+                        if not ok:
+                            break
+                ctx.oracle(ok, "C10.%s.history_identity" % name, site,
+                           "pid %d (particle %d of the pool) in the community differs from the same particle alone: %s"
+                           % (script[i]["pid"], i, what),
+                           dict(summ, particle=i, pid=script[i]["pid"], variant=variant, community=comm[i], alone=a, vars=names))
+
+
 def _reposition_once(M, modname, old_p, ox, oy, new_p, nx, ny, act, seed):
     """one call of the module's `reposition` with the given memory and state; returns (x, y) after"""
     if modname == "chemicals":
@@ -703,6 +909,8 @@ def run(ctx):
         histories(ctx, m)
     for m in ("chemicals", "sedimentation", "mine"):
         full_histories(ctx, m)
+    for m in MH_VARS:
+        module_histories(ctx, m)
     if not getattr(ctx, "widened", False):
         memory_model(ctx, Driver())
 
